@@ -43,6 +43,9 @@ func genC20(r *prng) *plan {
 	n := 3 + r.intn(14)
 	for i := 0; i < n; i++ {
 		switch {
+		case np > 0 && r.chance(8):
+			// the operator hands the node a peer's record again (AddEnr RPC) after the peer has reported
+			p.Ops = append(p.Ops, opSpec{K: "readd", N: []int64{int64(r.intn(np))}})
 		case np > 0 && r.chance(65):
 			p.Ops = append(p.Ops, opSpec{K: "report", N: []int64{int64(r.intn(np)), int64(r.intn(2)), int64(r.intn(4)), int64(r.intn(8)), int64(r.intn(2)), int64(r.intn(5))}})
 		default:
@@ -360,6 +363,33 @@ func runC20(seed uint64) {
 				}
 				if !has || !bytes.Equal(got, want) {
 					w.violate("C20", "radius-not-latest", "%s last reported radius %x (via %s, payload type %d); the node records %x", cp.pup.cfg.name, cp.radius, []string{"ping", "pong"}[via], ptype, got)
+				}
+			}
+		case "readd":
+			cp := pups[int(op.n(0))%len(pups)]
+			was := inTable(cp.node.ID())
+			vp.p.AddEnr(cp.pup.self())
+			w.runFor(5 * time.Millisecond)
+			switch {
+			case was:
+				// already an entry: nothing is added, what the peer reported stands
+				w.probe("readd_existing_entry")
+			case inTable(cp.node.ID()):
+				// a new entry made by the operator: recorded with the maximum radius until it reports
+				cp.radius = new(big.Int).Set(maxU256)
+				w.probe("readd_new_entry")
+			}
+			w.op("readd#%d %s (was in table: %v)", opi, cp.pup.cfg.name, was)
+			w.abstract("readd %v", was)
+			got, has := vp.p.VerifRadiusOf(cp.node.ID())
+			if cp.radius != nil {
+				want := make([]byte, 32)
+				be := cp.radius.Bytes()
+				for i := range be {
+					want[i] = be[len(be)-1-i]
+				}
+				if !has || !bytes.Equal(got, want) {
+					w.violate("C20", "radius-not-latest", "%s last reported radius %x; after its record was handed to the node again (AddEnr) the node records %x", cp.pup.cfg.name, cp.radius, got)
 				}
 			}
 		case "gossip":
